@@ -22,8 +22,8 @@ EXPLANATION = ('Decides for all inputs that conversions between representations 
                'commute with the Mat4 embedding.  The quaternion round trip for a rotation matrix needs the orthogonality relations and is not decided.')
 LEVEL_NOTE = 'Decides copy/identity clauses for all inputs; the SO(3) round trip is not claimed. Trusted: rustc MIR, intrinsic table, rules/spec.py.'
 
-CONFIGS_QUICK = ['sse2', 'scalar']
-CONFIGS_THOROUGH = ['sse2', 'scalar', 'coresimd', 'neon', 'wasm32']
+CONFIGS_QUICK = ['sse2', 'sse2-fma', 'sse41', 'scalar', 'coresimd', 'neon', 'wasm32']
+CONFIGS_THOROUGH = ['sse2', 'sse2-fma', 'sse41', 'scalar', 'coresimd', 'neon', 'wasm32']
 MATS = set(DIMS)
 
 
